@@ -23,6 +23,9 @@ enum Obj {
     F,
     /// two headers: g12v1 index 7 (refused by the handler), then g12v1 index 3 (accepted)
     G,
+    /// g12v1, 25 objects in one header (indices 10..=34): the echo (304 octets) does not fit a
+    /// transmit buffer of 249 octets
+    H,
 }
 
 impl Obj {
@@ -41,11 +44,16 @@ impl Obj {
                 v.extend(app::prefixed8(12, 1, &[(3, app::crob(0x03, 1, 100, 200, 0))]));
                 v
             }
+            Obj::H => {
+                let items: Vec<(u8, Vec<u8>)> = (10..35u8).map(|i| (i, app::crob(0x03, 1, 100, 200, 0))).collect();
+                app::prefixed8(12, 1, &items)
+            }
         }
     }
     fn count(self) -> usize {
         match self {
             Obj::B | Obj::G => 2,
+            Obj::H => 25,
             _ => 1,
         }
     }
@@ -399,7 +407,9 @@ impl Scenario for C04 {
                     // the handler refuses index 7: a SELECT succeeds only if every object of every header does
                     let any_refused = frag.len() >= 2 && app::walk(&frag[2..], false).map(|h| h.iter().any(|x| x.group == 12 && x.objects.iter().any(|o| o.index == Some(7)))).unwrap_or(false);
                     let _ = &f_bytes;
-                    frag.len() >= 2 && !any_refused && app::walk(&frag[2..], false).is_ok() && within_limit
+                    // a SELECT whose echo (control, function, indications, objects) does not fit the transmit buffer is not a successful SELECT
+                    let echo_fits = frag.len() + 2 <= self.cfg.sol_tx;
+                    frag.len() >= 2 && !any_refused && app::walk(&frag[2..], false).is_ok() && within_limit && echo_fits
                 };
                 let was_armed = model.armed.is_some();
                 if let Some(exec) = model.on_fragment(frag, *src, now, select_ok) {
@@ -595,6 +605,14 @@ fn scenarios(tier: &str) -> Vec<C04> {
         depth: 3,
         start_seq: 0,
         cfg: OCfg { max_controls: Some(2), ..C04::cfg() },
+    });
+    // a transmit buffer of 249 octets and a request of 25 controls: the echo does not fit
+    v.push(C04 {
+        name: "tx249-reducedH-d3-seq0".to_string(),
+        alphabet: reduced_alphabet(Obj::H),
+        depth: 3,
+        start_seq: 0,
+        cfg: OCfg { sol_tx: 249, ..C04::cfg() },
     });
     if tier == "thorough" {
         v.push(C04 {
